@@ -288,7 +288,8 @@ func (drap *draPlugin) allocateResourceClaim(task *pod_info.PodInfo, podClaim *v
 	// possibly on other devices than the ones this task remembers).
 	allocatedFromMemory := false
 	if claimAllocationInfo, ok := task.ResourceClaimInfo[podClaim.Name]; ok && claimAllocationInfo.Allocation != nil &&
-		claim.Status.Allocation == nil && allocationUsableOnNode(claimAllocationInfo.Allocation, node) {
+		claim.Status.Allocation == nil && allocationUsableOnNode(claimAllocationInfo.Allocation, node) &&
+		drap.allocationStillFree(claim, claimAllocationInfo.Allocation) {
 		claim.Status.Allocation = claimAllocationInfo.Allocation.DeepCopy()
 		allocatedFromMemory = true
 	}
@@ -387,6 +388,27 @@ func allocationUsableOnNode(allocation *resourceapi.AllocationResult, node *v1.N
 		return false
 	}
 	return selector.Match(node)
+}
+
+// allocationStillFree reports whether the devices of a remembered allocation can be taken back: none of them has been
+// given to another claim since the task lost them (a victim is evicted, its device goes to the preemptor, then the
+// victim is placed on its own node again). Otherwise two claims would hold one device, and deallocating either of them
+// would drop the device from the allocated-device set while the other still uses it. The claim's own in-flight
+// allocation (pending bind request) keeps its devices in the set and does not count.
+func (drap *draPlugin) allocationStillFree(claim *resourceapi.ResourceClaim, allocation *resourceapi.AllocationResult) bool {
+	if drap.manager.ResourceClaims().ClaimHasPendingAllocation(claim.UID) {
+		return true
+	}
+	allocated, err := drap.manager.ResourceClaims().ListAllAllocatedDevices()
+	if err != nil {
+		return false
+	}
+	for _, result := range allocation.Devices.Results {
+		if allocated.Has(structured.MakeDeviceID(result.Driver, result.Pool, result.Device)) {
+			return false
+		}
+	}
+	return true
 }
 
 func getClaimDevicesString(claim *resourceapi.ResourceClaim) string {
